@@ -180,3 +180,38 @@ Proof.
   - rewrite den_one_ref. exact H42.
   - rewrite den_one_ref. exact H123.
 Qed.
+
+(* ------------------------------------------------------------------ an unquoted LITERAL word (operator words, file names) *)
+(** no dollar, open paren, equals sign, backquote, star, open brace, tilde, bar *)
+Definition lit_char (c : char) : bool :=
+  negb (c =? 36) && negb (c =? 40) && negb (c =? 61) && negb (c =? 96) && negb (c =? 42) && negb (c =? 123)
+  && negb (c =? 126) && negb (c =? 124).
+Definition lit_ok (w : str) : bool := forallb lit_char w.
+
+Lemma lit_not_in (k : char) (w : str) : lit_ok w = true -> lit_char k = false -> ~ In k w.
+Proof.
+  intros H Hk Hin. unfold lit_ok in H. rewrite forallb_forall in H. apply H in Hin. congruence.
+Qed.
+
+Lemma lit_tok_ok1 W (w : str) : lit_ok w = true -> tok_ok1 W (TNone, w) (TNone, w).
+Proof.
+  intros H.
+  assert (H36 : ~ In 36 w) by (apply lit_not_in; [exact H|reflexivity]).
+  assert (E : tok_ok1 W (TNone, render_pieces (map PLit w)) (TNone, den_pieces W (map PLit w))).
+  { apply ok1_uref; rewrite ?render_map_lit, ?den_map_lit.
+    - rewrite <- (app_nil_r (map PLit w)), wf_map_lit, (no36_forallb w H36). reflexivity.
+    - unfold gate_ok. rewrite (lits_okg_map_lit true). apply orb_true_iff. left.
+      unfold lit_ok in H. rewrite forallb_forall in *. intros c Hc. specialize (H c Hc). unfold lit_char in H. unfold okg.
+      repeat (apply andb_true_iff in H as [H ?]). now repeat (apply andb_true_iff; split).
+    - intros ->. discriminate H.
+    - destruct w as [|c w]; [reflexivity|]. cbn [strip_prefix]. destruct (126 =? c) eqn:E; [|reflexivity].
+      apply N.eqb_eq in E. subst c. discriminate H.
+    - apply lit_not_in; [exact H|reflexivity].
+    - apply has_dollar_paren_no_dollar. exact H36.
+    - apply lit_not_in; [exact H|reflexivity].
+    - apply lit_not_in; [exact H|reflexivity]. }
+  rewrite render_map_lit, den_map_lit in E. exact E.
+Qed.
+
+Lemma tok_ok_ok1_all W l l' : Forall2 (tok_ok W) l l' -> Forall2 (tok_ok1 W) l l'.
+Proof. induction 1; constructor; [now constructor|assumption]. Qed.
